@@ -31,7 +31,8 @@ Proof. intros p a d evs s R. exact (out_buf _ (oi_out _ (reachable_OInv _ _ _ _ 
 Print Assumptions C04_cursor_up_matches_live_rows.
 
 Theorem C04_frame_fits_rows : forall p a d evs s wd ht rows n pc pu,
-  run (init_cst p a d) evs = Some s -> ph s = Rendering wd ht rows n pc pu -> Z.of_nat (length rows) <= Z.max 0 ht.
+  run (init_cst p a d) evs = Some s -> ph s = Rendering wd ht rows n pc pu ->
+  n = Z.of_nat (length rows) /\ 0 <= pc <= n /\ n - pc <= Z.max 0 ht.
 Proof. exact frame_fits_rows. Qed.
 Print Assumptions C04_frame_fits_rows.
 
@@ -66,14 +67,15 @@ Theorem C04_terminal_keeps_a_spare_row : gen_terminal_height_adjust = (-1)%Z.
 Proof. exact terminal_keeps_a_spare_row. Qed.
 Print Assumptions C04_terminal_keeps_a_spare_row.
 
-(* every frame written while the flush height is h - 1 redraws exactly on a window of h rows *)
+(* every frame written while the flush height is h - 1 redraws exactly on a window of h rows: the cursor-up written behind a frame is
+   n - popcount, the rows that are not popped out *)
 Theorem C04_frames_redraw_on_the_terminal : forall p a d evs s wd h rows n pc pu hist lv body,
   run (init_cst p a d) evs = Some s -> ph s = Rendering wd (h + gen_terminal_height_adjust) rows n pc pu -> 1 <= h ->
-  Z.of_nat (length lv) = Z.of_nat (length rows) -> forallb (fun i => negb (is_cuu i)) body = true ->
-  apply_frame_h h (hist ++ lv) (cuu_items (Z.of_nat (length rows)) ++ body) = hist ++ body.
+  Z.of_nat (length lv) = n - pc -> forallb (fun i => negb (is_cuu i)) body = true ->
+  apply_frame_h h (hist ++ lv) (cuu_items (n - pc) ++ body) = hist ++ body.
 Proof.
   intros p a d evs s wd h rows n pc pu hist lv body R P H L B.
-  pose proof (frame_fits_rows _ _ _ _ _ _ _ _ _ _ _ R P) as F. rewrite terminal_keeps_a_spare_row in F.
+  destruct (frame_fits_rows _ _ _ _ _ _ _ _ _ _ _ R P) as (_ & _ & F). rewrite terminal_keeps_a_spare_row in F.
   apply redraw_in_place_h; auto. lia.
 Qed.
 Print Assumptions C04_frames_redraw_on_the_terminal.
